@@ -24,6 +24,22 @@ pub fn from_compact(bits: u32) -> BigUint {
     }
 }
 
+/// (negative, overflow) flags of arith_uint256::SetCompact.
+pub fn compact_flags(bits: u32) -> (bool, bool) {
+    let size = bits >> 24;
+    let word = bits & 0x007f_ffff;
+    let negative = word != 0 && (bits & 0x0080_0000) != 0;
+    let overflow = word != 0 && (size > 34 || (word > 0xff && size > 33) || (word > 0xffff && size > 32));
+    (negative, overflow)
+}
+
+/// CheckProofOfWork's conditions on the declared target itself.
+pub fn declared_target_ok(net: Net, bits: u32) -> bool {
+    let (neg, ovf) = compact_flags(bits);
+    let t = from_compact(bits);
+    !neg && !ovf && t != BigUint::from(0u8) && t <= pow_limit(net)
+}
+
 /// arith_uint256::GetCompact.
 pub fn to_compact(v: &BigUint) -> u32 {
     let mut size = ((v.bits() + 7) / 8) as u32;
